@@ -319,8 +319,11 @@ class Rec:
 
 class World:
 
-    def __init__(self, c, position='any', slow_send=False, slow_disconnect=False, listeners=()):
+    def __init__(self, c, position='any', slow_send=False, slow_disconnect=False, listeners=(), sent_listeners=(),
+                 remove_on_sent=None, remove_nth=0):
         self.c = c
+        self.remove_on_sent = remove_on_sent      # None | 'listener' | 'task': who removes the request while it is being announced
+        self.remove_nth = remove_nth              # which announced request (in order of announcement)
         self.slow_disconnect = slow_disconnect
         self.session = None
         self.stopped = False
@@ -357,7 +360,69 @@ class World:
                 fn = self._make_listener(k, kind, evkind)
                 self._extra.append(fn)          # the bus keeps weak references only
                 self.bus.register(cls, fn)
+        self.sent_listener_kinds = list(sent_listeners)
+        for k, kind in enumerate(self.sent_listener_kinds):
+            fn = self._make_sent_listener(k, kind)
+            self._extra.append(fn)
+            self.bus.register(SearchRequestSentEvent, fn)
         self._install_tickets(position)
+
+    def _make_sent_listener(self, k, kind):
+        """an application listener of SearchRequestSentEvent (kinds as in _make_listener).  With
+        remove_on_sent='listener' the first of them calls remove_request() for the request that is being
+        announced, from inside the dispatch."""
+        c = self.c
+
+        def begin(event):
+            self.deliveries.append((k, 'sent', event.query, None, 'start'))
+            if self.remove_on_sent == 'listener' and k == 0:
+                r = self._announced(event.query)
+                if r is not None and self.is_registered(r):
+                    self.say('listener removes the request it is told about')
+                    self.remove(r)
+                    c.reach('removed_during_sent_dispatch')
+
+        def end(event):
+            self.deliveries.append((k, 'sent', event.query, None, 'done'))
+        if kind == 'sync':
+            def listener(event):
+                begin(event)
+                end(event)
+        elif kind == 'async':
+            async def listener(event):
+                begin(event)
+                end(event)
+        elif kind == 'yield':
+            async def listener(event):
+                begin(event)
+                await asyncio.sleep(dur(c, f'listener{k}_sent_takes'))
+                end(event)
+        else:
+            raise symex.HarnessError(f'listener kind {kind}')
+        return listener
+
+    def _announced(self, req):
+        """the record of `req` if it is the one chosen for removal during its announcement"""
+        r = next((r for r in self.recs if r.req is req), None)
+        if r is not None and self.recs.index(r) == self.remove_nth:
+            return r
+        return None
+
+    async def _remover_task(self, r):
+        """another task of the application: removes the request a symbolic time after its announcement
+        began - while a yielding listener is still suspended, or later (decided by z3)"""
+        try:
+            await asyncio.sleep(dur(self.c, 'remover_delay'))
+            if self.is_registered(r):
+                in_dispatch = any(d[1] == 'sent' and d[2] is r.req and d[4] == 'start' and
+                                  not any(e[0] == d[0] and e[1] == 'sent' and e[2] is r.req and e[4] == 'done' for e in self.deliveries)
+                                  for d in self.deliveries)
+                self.say('another task removes the request', 'during' if in_dispatch else 'after', 'its announcement')
+                self.remove(r)
+                if in_dispatch:
+                    self.c.reach('removed_during_sent_dispatch')
+        except Exception as e:  # noqa
+            self.harness_errors.append(f'remover task raised {e!r}')
 
     def _make_listener(self, k, kind, evkind):
         """an application listener.  sync: plain function; async: coroutine function that never
@@ -402,7 +467,14 @@ class World:
 
     # ---- observers (never raise in here: EventBus.emit swallows Exception) -----------
     def _on_sent(self, event):
+        # first listener of the dispatch: this instant is the one the reference pins as "sent" (in the
+        # code as it stands the request is registered and its timer armed in this very instant)
         self.new_rec(event.query)
+        if self.remove_on_sent == 'task':
+            r = self._announced(event.query)
+            if r is not None:
+                t = self.loop.create_task(self._remover_task(r))
+                self.own_tasks.add(t)
 
     def say(self, *a):
         """trace for concrete replays (shown by ./vcheck replay)"""
@@ -776,11 +848,13 @@ OPS_DOC = {
 
 
 @with_boxed_tickets
-def h_scenario(c, ops='TSDPD', position='low', send='instant', disconnect='instant', listeners=()):
+def h_scenario(c, ops='TSDPD', position='low', send='instant', disconnect='instant', listeners=(), sent_listeners=(),
+               remove_on_sent=None, remove_nth=0):
     """disconnect='slow': the connection's disconnect() awaited by the reply handler stays suspended
     for a fresh symbolic time, so later ops (removal, time passing = expiries) land inside the handling"""
-    w = World(c, position, slow_send=(send == 'slow'), slow_disconnect=(disconnect == 'slow'), listeners=listeners)
-    wait = send == 'instant'
+    w = World(c, position, slow_send=(send == 'slow'), slow_disconnect=(disconnect == 'slow'), listeners=listeners,
+              sent_listeners=sent_listeners, remove_on_sent=remove_on_sent, remove_nth=remove_nth)
+    wait = send == 'instant' and 'yield' not in sent_listeners      # else search() stays in its announcement
     rwait = disconnect == 'instant' and 'yield' not in listeners      # else the reply may stay in flight
     for i, op in enumerate(ops):
         if op == 'T':
@@ -1179,6 +1253,20 @@ def jobs(tier):
         out.append({'harness': 'scenario', 'fn': h_scenario, 'params': params,
                     'requires': ['scenario_end', 'generator_position_symbolic', 'reply', 'removed_reported_to_listeners',
                                  'result_reported_to_listeners']})
+    # listeners of SearchRequestSentEvent; the request is removed while it is being announced
+    sj = [('TSDQD', ['sync'], 'listener', 0), ('TSRDQD', ['async', 'yield'], 'listener', 0), ('TSDQD', ['yield'], 'task', 0),
+          ('TSDQD', ['yield', 'sync'], None, 0)]
+    if not q:
+        sj += [('TSRDXDQD', ['yield'], 'task', 1), ('TUDQD', ['sync', 'yield'], 'listener', 0), ('ILDQD', ['yield'], 'task', 0),
+               ('TSDQD', ['yield', 'yield'], 'task', 0), ('TSRDQD', ['yield'], 'listener', 1), ('ILDQD', ['async'], 'listener', 1),
+               ('TSRUDQ', ['yield', 'async'], None, 0)]
+    for ops, ls, how, nth in sj:
+        params = {'ops': ops, 'position': 'low', 'sent_listeners': ls}
+        if how is not None:
+            params.update(remove_on_sent=how, remove_nth=nth)
+        out.append({'harness': 'scenario', 'fn': h_scenario, 'params': params,
+                    'requires': ['scenario_end', 'generator_position_symbolic', 'reply'] +
+                                (['removed_during_sent_dispatch', 'manual_removal'] if how else [])})
     # the session is lost and re-initialised between searches; registered requests survive
     zj = [('TSZRQD', 'low'), ('SZSQQ', 'low'), ('TSZRQD', 'constructor'), ('TSDZUDQD', 'low'), ('ILZLQD', 'low')]
     if not q:
